@@ -203,6 +203,38 @@ func runC10(r *core.Run) {
 				if (verr == nil) != wantOK {
 					bad("behaviour", "LeaseSet2.Validate(key length)", code, "key type %d len %d: Validate err=%v, specification length %d known=%v", code, L, verr, cLen, cKnown)
 				}
+				// the same entry at every POSITION of a key list: after a well-formed key of the same type, after a
+				// well-formed key of another type, and between two (a validator that looks at the first key of a
+				// type only, or stops at the first good one, agrees with the table on single-key sets)
+				if !cKnown || code > 8 {
+					continue
+				}
+				good := func(t int) refmodel.EncKey {
+					return refmodel.EncKey{Type: t, Data: refmodel.Fill("kg", uint64(t), refmodel.CryptoTable[t])}
+				}
+				other := 4
+				if code == 4 {
+					other = 0
+				}
+				probe := refmodel.EncKey{Type: code, Data: refmodel.Fill("k", uint64(code), L)}
+				for name, keys := range map[string][]refmodel.EncKey{
+					"after-same-type":     {good(code), probe},
+					"after-other-type":    {good(other), probe},
+					"between-two":         {good(code), probe, good(other)},
+					"before-same-type":    {probe, good(code)},
+					"after-two-same-type": {good(code), good(code), probe},
+				} {
+					ls2 := ls
+					ls2.Keys = keys
+					r.Evaluations.Add(1)
+					pp, _, err := lease_set2.ReadLeaseSet2(ls2.Bytes())
+					if err != nil {
+						continue
+					}
+					if verr := pp.Validate(); (verr == nil) != wantOK {
+						bad("behaviour", "LeaseSet2.Validate(key length)["+name+"]", code, "key type %d len %d %s: Validate err=%v, specification length %d", code, L, name, verr, cLen)
+					}
+				}
 			}
 		}
 	}
